@@ -343,8 +343,30 @@ func extractHelloParser(fn *ast.FuncDecl, constVal func(e ast.Expr) (int64, bool
 	for _, lp := range loopsBefore(fn.Body, sw.Pos()) {
 		hp.loops = append(hp.loops, loopEffects(lp.Body, constVal))
 	}
+	if hp.caseEffects == nil {
+		hp.caseEffects = map[int64][]string{}
+	}
+	// what happens to an extension none of the cases names (the default clause), and what follows the switch for
+	// the extensions whose case did not leave the loop iteration
+	hp.caseNames[-1], hp.caseNames[-2] = "unknown extensions: default clause", "after the switch"
+	hp.caseEffects[-1] = []string{"(no default clause)"}
+	ast.Inspect(fn.Body, func(n ast.Node) bool {
+		blk, ok := n.(*ast.BlockStmt)
+		if !ok {
+			return true
+		}
+		for i, st := range blk.List {
+			if st == ast.Stmt(sw) {
+				hp.caseEffects[-2] = loopEffects(&ast.BlockStmt{List: blk.List[i+1:]}, constVal)
+			}
+		}
+		return true
+	})
 	for _, st := range sw.Body.List {
 		cc := st.(*ast.CaseClause)
+		if len(cc.List) == 0 {
+			hp.caseEffects[-1] = append([]string{"default:"}, loopEffects(&ast.BlockStmt{List: cc.Body}, constVal)...)
+		}
 		for _, lbl := range cc.List {
 			v, ok := constVal(lbl)
 			if !ok {
